@@ -10,7 +10,7 @@ The registered checks themselves (MANIFEST.json) always run in /verif against /r
 import os, sys, json, subprocess, glob, shutil, re
 from concurrent.futures import ThreadPoolExecutor
 V = "/verif"
-PAR = "/tmp/par"
+PAR = os.environ.get("PAR_DIR", "/tmp/par")
 args = sys.argv[1:]
 J = 4
 if "-j" in args:
